@@ -22,7 +22,7 @@ struct Explorer {
 		std::vector<int> activityAfter;
 		std::string keyBefore, keyAfter;
 		bool activatedBefore = false, activatedAfter = false;
-		long breaks = 0;
+		long breaks = 0, sanReports = 0;
 		std::string breakSite;
 		bool bad = false;  // a monitor flagged this execution: do not expand its successor state
 		History full() const { History h = *hist; h.push_back(step); return h; }
@@ -90,6 +90,7 @@ struct Explorer {
 		x.activatedAfter = activationAfter(node.activated, step.op);
 		++replayChecks;
 		const long b0 = breaks().count;
+		const long san0 = sanErrors();
 		cur = &x;
 		r.env.monitoring = true;
 		x.stepBegin = r.env.trace.size();
@@ -101,6 +102,7 @@ struct Explorer {
 		x.points = r.env.points;
 		x.breaks = breaks().count - b0;
 		if (x.breaks) x.breakSite = std::string(breaks().file) + ":" + str(breaks().line);
+		x.sanReports = sanErrors() - san0;
 		if (r.env.engineErrors) engineError("step: " + r.env.engineErrorText, x.full());
 		x.after = r.snap();
 		x.keyAfter = r.key();
@@ -122,7 +124,15 @@ struct Explorer {
 		size_t h = 1469598103934665603ull;
 		for (size_t i = x.stepBegin; i < x.stepEnd; ++i) { const TraceEv& e = x.trace[i]; h = (h ^ (size_t) (e.state * 131 + e.meth * 7 + e.a * 31 + e.b)) * 1099511628211ull; }
 		distinctTraces.insert(h);
+		// behaviour digest of the whole exploration (C15): op, deviations, every callback / request / answer, resulting state
+		auto mix = [this](uint64_t v) { digest = (digest ^ v) * 1099511628211ull; };
+		mix(step.op.type); mix(step.op.n); for (int i = 0; i < 3; ++i) { mix((uint64_t) step.op.r[i].kind + 7); mix((uint64_t) step.op.r[i].state + 11); }
+		for (const Choice& c : step.script) { mix((uint64_t) c.key.state + 3); mix(c.key.meth); mix(c.key.occ); mix(c.alt); }
+		for (size_t i = x.stepBegin; i < x.trace.size(); ++i) { const TraceEv& e = x.trace[i]; mix((uint64_t) e.state + 5); mix(e.meth); mix(e.layer); mix((uint64_t) e.a + 13); mix((uint64_t) e.b + 17); }
+		for (char ch : x.keyAfter) mix((unsigned char) ch);
+		for (int s = 0; s < N; ++s) { mix(x.after.active[s]); mix(x.after.resumable[s]); }
 	}
+	uint64_t digest = 1469598103934665603ull;
 
 	void engineError(const std::string& msg, const History& h) {
 		printf("{\"type\":\"engine_error\",\"message\":\"%s\",\"enc\":\"%s\"}\n", jesc(msg).c_str(), historyEnc(h).c_str());
@@ -280,6 +290,7 @@ struct Explorer {
 		if (props & P_C03) checkC03(x);
 		afterExec(node, x);
 		if (x.breaks && (props & P_C11)) violation("C11", "assert/" + x.breakSite.substr(x.breakSite.find_last_of('/') + 1), "library assertion " + x.breakSite + " during " + x.step.op.text(), x);
+		if (x.sanReports && (props & P_C11)) violation("C11", "sanitizer/report", str(x.sanReports) + " AddressSanitizer/UBSan report(s) during " + x.step.op.text() + " (report text on stderr)", x);
 	}
 
 	// ---------------------------------------------------------------------------------------------
@@ -467,8 +478,8 @@ struct Explorer {
 		for (auto& kv : counters) { c += std::string(first ? "" : ",") + "\"" + kv.first + "\":" + str(kv.second); first = false; }
 		c += "}";
 		printf("{\"type\":\"summary\",\"program\":\"%s\",\"dsl\":\"%s\",\"states\":%ld,\"transitions\":%ld,\"compared\":%ld,\"distinct_keys\":%zu,\"distinct_traces\":%zu,"
-			   "\"max_depth\":%ld,\"dev\":%d,\"batch\":%d,\"fixpoint\":%s,\"capped\":%s,\"deadline_hit\":%s,\"violations\":%ld,\"counters\":%s,\"wall\":%.2f,\"samples\":%s}\n",
-			   VT_PROG_NAME, VT_PROG_DSL, states, transitions, compared, seen.size(), distinctTraces.size(), maxDepth, opt.dev, opt.batch,
+			   "\"max_depth\":%ld,\"dev\":%d,\"batch\":%d,\"digest\":\"%016llx\",\"fixpoint\":%s,\"capped\":%s,\"deadline_hit\":%s,\"violations\":%ld,\"counters\":%s,\"wall\":%.2f,\"samples\":%s}\n",
+			   VT_PROG_NAME, VT_PROG_DSL, states, transitions, compared, seen.size(), distinctTraces.size(), maxDepth, opt.dev, opt.batch, (unsigned long long) digest,
 			   fixpoint ? "true" : "false", capped ? "true" : "false", deadlineHit ? "true" : "false", E::R().total, c.c_str(), elapsed(), s.c_str());
 		fflush(stdout);
 	}
@@ -497,6 +508,7 @@ int main(int argc, char** argv) {
 		else if (a == "--classes") opt.classes = (unsigned) strtoul(next().c_str(), nullptr, 0);
 		else if (a == "--dev-immediate") opt.devImmediate = atoi(next().c_str()) != 0;
 		else if (a == "--imm-reduced") opt.immReduced = atoi(next().c_str()) != 0;
+		else if (a == "--common") opt.common = atoi(next().c_str()) != 0;
 		else if (a == "--fill") opt.fill = (unsigned char) strtoul(next().c_str(), nullptr, 0);
 		else if (a == "--replay") opt.replay = next();
 		else if (a == "--verbose") opt.verbose = true;
